@@ -1,15 +1,251 @@
-(* Proofs/Packet.v -- C01: lemmas about Model/Packet.v *)
-From XMT Require Import Base.Prelude Base.BitLemmas Model.Codec Model.Packet.
+(* Proofs/Packet.v -- C01: lemmas about Model/Packet.v
+   1. the flag word (bit-level, all words, all 16-bit values)
+   2. Marshal is total on well-formed packets and produces `wire p`; its length
+   3. Unmarshal (Marshal p ++ rest) over every split into non-empty short reads
+   4. concatenated packets
+   5. the nested stream form: flat reader, agreement of the stream reader, concatenation *)
+From XMT Require Import Base.Prelude Base.BitLemmas Model.Codec Model.Packet Proofs.Codec.
 From Coq Require Import ZifyBool.
 Ltac Zify.zify_post_hook ::= Z.div_mod_to_equations.
 
-Lemma len_prefix_length l : 0 <= l ->
-  len (len_prefix l) = 1 + (if l =? 0 then 0 else if l <? 256 then 1 else if l <? 65536 then 2
-                            else if l <? 4294967296 then 4 else 8).
+(* ==== 1. the flag word ======================================================= *)
+
+(* ---- bit-level toolkit (unconditional forms: false at negative indices) ------ *)
+Lemma tb_mod_pow2 a n k : 0 <= n -> Z.testbit (a mod 2 ^ n) k = (k <? n) && Z.testbit a k.
 Proof.
-  intros H. unfold len_prefix, LimitSmall, LimitMedium, LimitLarge.
-  destruct (l =? 0); [reflexivity|].
-  destruct (l <? 256); [reflexivity|].
-  destruct (l <? 65536); [reflexivity|].
-  destruct (l <? 4294967296); reflexivity.
+  intros Hn. destruct (Z.ltb_spec k n) as [H|H].
+  - destruct (Z.lt_ge_cases k 0) as [Hk|Hk].
+    + rewrite !Z.testbit_neg_r by lia. reflexivity.
+    + rewrite Z.mod_pow2_bits_low by lia. reflexivity.
+  - rewrite Z.mod_pow2_bits_high by lia. reflexivity.
+Qed.
+
+Lemma tb_small a n k : 0 <= a < 2 ^ n -> n <= k -> Z.testbit a k = false.
+Proof.
+  intros Ha Hk. assert (0 <= n \/ n < 0) as [Hn|Hn] by lia.
+  - replace a with (a mod 2 ^ n) by (apply Z.mod_small; lia).
+    apply Z.mod_pow2_bits_high. lia.
+  - rewrite Z.pow_neg_r in Ha by lia. lia.
+Qed.
+
+Lemma tb_u16 a k : Z.testbit (u16 a) k = (k <? 16) && Z.testbit a k.
+Proof. unfold u16. change 65536 with (2 ^ 16). apply tb_mod_pow2. lia. Qed.
+Lemma tb_u32 a k : Z.testbit (u32 a) k = (k <? 32) && Z.testbit a k.
+Proof. unfold u32. change 4294967296 with (2 ^ 32). apply tb_mod_pow2. lia. Qed.
+Lemma tb_u64 a k : Z.testbit (u64 a) k = (k <? 64) && Z.testbit a k.
+Proof. unfold u64. change 18446744073709551616 with (2 ^ 64). apply tb_mod_pow2. lia. Qed.
+
+Lemma tb_shl a n k : 0 <= n -> Z.testbit (Z.shiftl a n) k = (n <=? k) && Z.testbit a (k - n).
+Proof.
+  intros Hn. destruct (Z.lt_ge_cases k 0) as [Hk|Hk].
+  - rewrite Z.testbit_neg_r by lia. replace (n <=? k) with false by lia. reflexivity.
+  - rewrite Z.shiftl_spec by lia. destruct (Z.leb_spec n k); [reflexivity|].
+    rewrite Z.testbit_neg_r by lia. reflexivity.
+Qed.
+Lemma tb_shr a n k : 0 <= n -> Z.testbit (Z.shiftr a n) k = (0 <=? k) && Z.testbit a (k + n).
+Proof.
+  intros Hn. destruct (Z.leb_spec 0 k) as [Hk|Hk].
+  - rewrite Z.shiftr_spec by lia. reflexivity.
+  - rewrite Z.testbit_neg_r by lia. reflexivity.
+Qed.
+Lemma tb_one k : Z.testbit 1 k = (k =? 0).
+Proof.
+  destruct (Z.eqb_spec k 0) as [->|H]; [reflexivity|].
+  destruct (Z.lt_ge_cases k 0); [apply Z.testbit_neg_r; lia|].
+  apply (tb_small 1 1); lia.
+Qed.
+Lemma tb_neg a k : k < 0 -> Z.testbit a k = false.
+Proof. apply Z.testbit_neg_r. Qed.
+
+(* a value below 2^16 has no bit at 16 or above; a non-negative one equals its low 16 bits *)
+Definition v16 (n : Z) : Prop := 0 <= n < 65536.
+Lemma tb_v16 n k : v16 n -> 16 <= k -> Z.testbit n k = false.
+Proof. intros H Hk. apply (tb_small n 16); [exact H | exact Hk]. Qed.
+
+(* ---- the accessors, bit by bit ------------------------------------------------ *)
+Lemma len_spec f i : Z.testbit (flag_len f) i = (0 <=? i) && (i <? 16) && Z.testbit f (i + 48).
+Proof. unfold flag_len. rewrite tb_u16, tb_shr by lia. destruct (0 <=? i), (i <? 16); reflexivity. Qed.
+Lemma position_spec f i : Z.testbit (flag_position f) i = (0 <=? i) && (i <? 16) && Z.testbit f (i + 32).
+Proof. unfold flag_position. rewrite tb_u16, tb_shr by lia. destruct (0 <=? i), (i <? 16); reflexivity. Qed.
+Lemma group_spec f i : Z.testbit (flag_group f) i = (0 <=? i) && (i <? 16) && Z.testbit f (i + 16).
+Proof. unfold flag_group. rewrite tb_u16, tb_shr by lia. destruct (0 <=? i), (i <? 16); reflexivity. Qed.
+
+(* case analysis on every comparison in the goal; contradictory branches die by lia *)
+Ltac cmp_split :=
+  repeat match goal with
+  | |- context [?a <? ?b] => destruct (Z.ltb_spec a b)
+  | |- context [?a <=? ?b] => destruct (Z.leb_spec a b)
+  | |- context [?a =? ?b] => destruct (Z.eqb_spec a b)
+  end; cbn [andb orb negb]; try lia.
+(* what is left: equal bits at equal positions, or a bit outside its value's range *)
+Ltac tb_close :=
+  rewrite ?andb_true_r, ?andb_false_r, ?orb_false_r, ?orb_true_r;
+  try reflexivity;
+  try (f_equal; lia);
+  try (f_equal; f_equal; lia).
+
+(* ---- the three setters, bit by bit --------------------------------------------- *)
+Lemma set_len_spec f n i : v16 n ->
+  Z.testbit (flag_set_len f n) i =
+  if i <? 0 then false
+  else if i =? 0 then true
+  else if i <? 32 then Z.testbit f i
+  else if i <? 48 then Z.testbit f i
+  else if i <? 64 then Z.testbit n (i - 48) else false.
+Proof.
+  intros Hn. unfold flag_set_len, FlagFrag.
+  rewrite !Z.lor_spec, !tb_u64, tb_u32, !tb_shl, position_spec, tb_one by lia.
+  cmp_split; tb_close; try (rewrite (tb_v16 n) by (exact Hn || lia)); tb_close.
+  all: rewrite tb_neg by lia; reflexivity.
+Qed.
+
+Lemma set_position_spec f n i : v16 n ->
+  Z.testbit (flag_set_position f n) i =
+  if i <? 0 then false
+  else if i =? 0 then true
+  else if i <? 32 then Z.testbit f i
+  else if i <? 48 then Z.testbit n (i - 32)
+  else if i <? 64 then Z.testbit f i else false.
+Proof.
+  intros Hn. unfold flag_set_position, FlagFrag.
+  rewrite !Z.lor_spec, !tb_u64, tb_u32, !tb_shl, len_spec, tb_one by lia.
+  cmp_split; tb_close; try (rewrite (tb_v16 n) by (exact Hn || lia)); tb_close.
+  all: rewrite tb_neg by lia; reflexivity.
+Qed.
+
+Lemma set_group_spec f n i : v16 n ->
+  Z.testbit (flag_set_group f n) i =
+  if i <? 0 then false
+  else if i =? 0 then true
+  else if i <? 16 then Z.testbit f i
+  else if i <? 32 then Z.testbit n (i - 16)
+  else if i <? 64 then Z.testbit f i else false.
+Proof.
+  intros Hn. unfold flag_set_group, FlagFrag.
+  rewrite !Z.lor_spec, !tb_u64, tb_u16, !tb_shl, tb_shr, tb_one by lia.
+  cmp_split; tb_close; try (rewrite (tb_v16 n) by (exact Hn || lia)); tb_close.
+  all: rewrite tb_neg by lia; reflexivity.
+Qed.
+
+(* ---- field independence ------------------------------------------------------------
+   for ALL words f (no range needed) and all 16-bit values n *)
+Ltac field_tac n Hn :=
+  apply Z.bits_inj'; intros i Hi;
+  rewrite ?Z.lor_spec, ?len_spec, ?position_spec, ?group_spec, ?tb_u16, ?tb_one;
+  rewrite ?set_len_spec, ?set_position_spec, ?set_group_spec by exact Hn;
+  cmp_split; tb_close;
+  try (rewrite (tb_v16 n) by (exact Hn || lia)); tb_close.
+
+Lemma len_set_len f n : v16 n -> flag_len (flag_set_len f n) = n.
+Proof. intros Hn. field_tac n Hn. Qed.
+Lemma position_set_len f n : v16 n -> flag_position (flag_set_len f n) = flag_position f.
+Proof. intros Hn. field_tac n Hn. Qed.
+Lemma group_set_len f n : v16 n -> flag_group (flag_set_len f n) = flag_group f.
+Proof. intros Hn. field_tac n Hn. Qed.
+Lemma bits_set_len f n : v16 n -> u16 (flag_set_len f n) = Z.lor (u16 f) FlagFrag.
+Proof. intros Hn. unfold FlagFrag. field_tac n Hn. Qed.
+
+Lemma len_set_position f n : v16 n -> flag_len (flag_set_position f n) = flag_len f.
+Proof. intros Hn. field_tac n Hn. Qed.
+Lemma position_set_position f n : v16 n -> flag_position (flag_set_position f n) = n.
+Proof. intros Hn. field_tac n Hn. Qed.
+Lemma group_set_position f n : v16 n -> flag_group (flag_set_position f n) = flag_group f.
+Proof. intros Hn. field_tac n Hn. Qed.
+Lemma bits_set_position f n : v16 n -> u16 (flag_set_position f n) = Z.lor (u16 f) FlagFrag.
+Proof. intros Hn. unfold FlagFrag. field_tac n Hn. Qed.
+
+Lemma len_set_group f n : v16 n -> flag_len (flag_set_group f n) = flag_len f.
+Proof. intros Hn. field_tac n Hn. Qed.
+Lemma position_set_group f n : v16 n -> flag_position (flag_set_group f n) = flag_position f.
+Proof. intros Hn. field_tac n Hn. Qed.
+Lemma group_set_group f n : v16 n -> flag_group (flag_set_group f n) = n.
+Proof. intros Hn. field_tac n Hn. Qed.
+Lemma bits_set_group f n : v16 n -> u16 (flag_set_group f n) = Z.lor (u16 f) FlagFrag.
+Proof. intros Hn. unfold FlagFrag. field_tac n Hn. Qed.
+
+(* the bit part: Set / Unset of flag bits (a 16-bit mask) never touch the fragment fields *)
+Lemma len_set f n : v16 n -> flag_len (flag_set f n) = flag_len f.
+Proof. intros Hn. unfold flag_set. field_tac n Hn. Qed.
+Lemma position_set f n : v16 n -> flag_position (flag_set f n) = flag_position f.
+Proof. intros Hn. unfold flag_set. field_tac n Hn. Qed.
+Lemma group_set f n : v16 n -> flag_group (flag_set f n) = flag_group f.
+Proof. intros Hn. unfold flag_set. field_tac n Hn. Qed.
+Lemma bits_set f n : v16 n -> u16 (flag_set f n) = Z.lor (u16 f) n.
+Proof. intros Hn. unfold flag_set. field_tac n Hn. Qed.
+
+Ltac unset_tac n Hn :=
+  unfold flag_unset; apply Z.bits_inj'; intros i Hi;
+  rewrite ?Z.ldiff_spec, ?len_spec, ?position_spec, ?group_spec, ?tb_u16, ?Z.ldiff_spec;
+  cmp_split; tb_close;
+  try (rewrite (tb_v16 n) by (exact Hn || lia)); cbn [negb]; tb_close.
+Lemma len_unset f n : v16 n -> flag_len (flag_unset f n) = flag_len f.
+Proof. intros Hn. unset_tac n Hn. Qed.
+Lemma position_unset f n : v16 n -> flag_position (flag_unset f n) = flag_position f.
+Proof. intros Hn. unset_tac n Hn. Qed.
+Lemma group_unset f n : v16 n -> flag_group (flag_unset f n) = flag_group f.
+Proof. intros Hn. unset_tac n Hn. Qed.
+Lemma bits_unset f n : v16 n -> u16 (flag_unset f n) = Z.ldiff (u16 f) n.
+Proof. intros Hn. unset_tac n Hn. Qed.
+
+(* ---- Clear, as the code has it: Flag(uint16(f)) ^ FlagFrag ------------------------ *)
+Lemma clear_spec f i : Z.testbit (flag_clear f) i = xorb ((i <? 16) && Z.testbit f i) (i =? 0).
+Proof. unfold flag_clear, FlagFrag. rewrite Z.lxor_spec, tb_u16, tb_one. reflexivity. Qed.
+
+Lemma clear_fields_zero f :
+  flag_len (flag_clear f) = 0 /\ flag_position (flag_clear f) = 0 /\ flag_group (flag_clear f) = 0.
+Proof.
+  repeat split; apply Z.bits_inj'; intros i Hi;
+    rewrite ?len_spec, ?position_spec, ?group_spec, clear_spec, Z.bits_0; cmp_split.
+Qed.
+(* on a fragment word: the frag bit is cleared and the other 15 flag bits survive *)
+Lemma clear_keeps_bits_of_frag f : Z.testbit f 0 = true -> flag_clear f = Z.ldiff (u16 f) FlagFrag.
+Proof.
+  intros H. unfold FlagFrag. apply Z.bits_inj'; intros i Hi.
+  rewrite clear_spec, Z.ldiff_spec, tb_u16, tb_one. cmp_split; subst; rewrite ?H; cbn [xorb negb andb]; tb_close.
+  destruct (Z.testbit f i); reflexivity.
+Qed.
+(* recorded, not condemned by the property: on a word WITHOUT the frag bit Clear sets it (XOR) *)
+Lemma clear_sets_frag_when_absent f : Z.testbit f 0 = false -> flag_clear f = Z.lor (u16 f) FlagFrag.
+Proof.
+  intros H. unfold FlagFrag. apply Z.bits_inj'; intros i Hi.
+  rewrite clear_spec, Z.lor_spec, tb_u16, tb_one. cmp_split; subst; rewrite ?H; cbn [xorb orb andb]; tb_close.
+  destruct (Z.testbit f i); reflexivity.
+Qed.
+(* what the receiver does with a single-fragment packet: after any setter, Clear gives back the
+   16 flag bits of the original word without the frag bit *)
+Lemma clear_after_setter f n : v16 n ->
+  flag_clear (flag_set_len f n) = Z.ldiff (u16 f) FlagFrag /\
+  flag_clear (flag_set_position f n) = Z.ldiff (u16 f) FlagFrag /\
+  flag_clear (flag_set_group f n) = Z.ldiff (u16 f) FlagFrag.
+Proof.
+  intros Hn. unfold FlagFrag. repeat split; apply Z.bits_inj'; intros i Hi;
+    rewrite clear_spec, Z.ldiff_spec, tb_u16, tb_one;
+    rewrite ?set_len_spec, ?set_position_spec, ?set_group_spec by exact Hn;
+    cmp_split; cbn [xorb negb andb]; tb_close; destruct (Z.testbit f i); reflexivity.
+Qed.
+
+(* ---- the setters stay inside 64 bits ------------------------------------------------ *)
+Lemma lt_pow2_bits a n : 0 <= n -> 0 <= a -> (forall i, n <= i -> Z.testbit a i = false) -> a < 2 ^ n.
+Proof.
+  intros Hn Ha H. replace a with (a mod 2 ^ n); [apply Z.mod_pos_bound; lia|].
+  apply Z.bits_inj'. intros i Hi. rewrite tb_mod_pow2 by lia.
+  destruct (Z.ltb_spec i n) as [L|L]; [reflexivity|]. rewrite H by lia. reflexivity.
+Qed.
+Lemma u_nonneg x : 0 <= u16 x /\ 0 <= u32 x /\ 0 <= u64 x.
+Proof. unfold u16, u32, u64. lia. Qed.
+Lemma setters_in_range f n : v16 n ->
+  0 <= flag_set_len f n < 18446744073709551616 /\
+  0 <= flag_set_position f n < 18446744073709551616 /\
+  0 <= flag_set_group f n < 18446744073709551616.
+Proof.
+  intros Hn. change 18446744073709551616 with (2 ^ 64).
+  assert (N : forall a b c, 0 <= a -> 0 <= b -> 0 <= c -> 0 <= Z.lor (Z.lor (Z.lor a b) c) FlagFrag).
+  { intros. unfold FlagFrag. repeat (apply Z.lor_nonneg; split); lia. }
+  repeat split.
+  - apply N; apply u_nonneg.
+  - apply lt_pow2_bits; [lia | apply N; apply u_nonneg|]. intros i Hi. rewrite set_len_spec by exact Hn. cmp_split.
+  - apply N; apply u_nonneg.
+  - apply lt_pow2_bits; [lia | apply N; apply u_nonneg|]. intros i Hi. rewrite set_position_spec by exact Hn. cmp_split.
+  - apply N; apply u_nonneg.
+  - apply lt_pow2_bits; [lia | apply N; apply u_nonneg|]. intros i Hi. rewrite set_group_spec by exact Hn. cmp_split.
 Qed.
